@@ -166,6 +166,9 @@ func (o *Overlay) TransmitMsg(onetMsg *ProtocolMsg, io MessageProxy) error {
 			return xerrors.New("No TreeNode defined in this tree here")
 		}
 		tni := o.newTreeNodeInstanceFromToken(tn, onetMsg.To, io)
+		// the last instance using the tree may have finished since the lookup
+		// above and scheduled the removal of the tree: the new instance needs it
+		o.treeStorage.Set(tree)
 		// retrieve the possible generic config for this message
 		config := o.getConfig(onetMsg.To.ID())
 		if config == nil {
